@@ -41,10 +41,20 @@ Theorem C07_eof_last : forall strict window pktsize ops,
 Proof. exact eof_last. Qed.
 Print Assumptions C07_eof_last.
 
-(* "EOF only if the sender signalled it" and "EOF eventually if signalled" are covered by the
-   correspondence check and the direct oracle, not by a theorem: when the sender closes while its EOF
-   is still queued behind unsent data, or the peer's CLOSE overtakes a pending EOF at a paused
-   receiver, asyncssh subsumes the EOF in the close notification (modelled faithfully). *)
+(* EOF reaches the receiving session only if the sending application signalled it (for every honest
+   schedule).  Proved by a counting invariant: EOFs delivered + pending at the receiver + on the wire
+   + pending at the sender never exceed the EOFs written. *)
+Theorem C07_eof_only_if_signalled : forall strict window pktsize ops,
+  1 <= window -> 1 <= pktsize -> Forall honest ops ->
+  let y := run strict window pktsize ops in
+  In TEof (r_out (rcv_ y)) -> In TEof (written y).
+Proof. exact eof_only_if_signalled. Qed.
+Print Assumptions C07_eof_only_if_signalled.
+
+(* "EOF eventually if signalled" is covered by the correspondence check and the direct oracle, not by
+   a theorem: when the sender closes while its EOF is still queued behind unsent data, or the peer's
+   CLOSE overtakes a pending EOF at a paused receiver, asyncssh subsumes the EOF in the close
+   notification (modelled faithfully; this is why the counting invariant is an inequality). *)
 
 Example C07_example :
   let y := run true 4 3 [OWrite 0 [1;2;3;4;5;6;7]; OPause; ODeliverFwd; ODeliverFwd; OEof; OResume None;
